@@ -318,3 +318,42 @@ contract('c:_g_type_info_init', cfile=BI, params={'info': 'GIRealInfo', 'contain
          modifies=['info.type', 'info.typelib', 'info.offset', 'info.repository'],
          ensures={'C09.type_slot.inline_or_offset_stack_info':
                   'info.type == GI_INFO_TYPE_TYPE and info.typelib is typelib and info.offset == type_blob_offset(typelib, offset)'})
+
+
+# ---- properties (gipropertyinfo.c): the accessor functions recorded in the PropertyBlob -------------------------------------------------
+class PropertyBlob(Buffer): pass
+UNIVERSE.register(PropertyBlob)
+_schema(PropertyBlob, readable='int', writable='int', construct='int', construct_only='int', setter='int', getter='int')
+_schema(GIRealInfo, container='GIRealInfo?')
+ACCESSOR_SENTINEL = 0x3ff
+PF = 'girepository/gipropertyinfo.c'
+CONT_WF = ('implies(info is not None and info.container is not None and info.container.type == %d, '
+           'isinstance(info.container.typelib.data, Header) and isinstance(blob_of(info.container), ObjectBlob))' % INFO_TYPE['OBJECT'],
+           'implies(info is not None and info.container is not None and info.container.type == 8, '
+           'isinstance(info.container.typelib.data, Header) and isinstance(blob_of(info.container), InterfaceBlob))')
+
+
+def method_of_container(info, index):
+    """offset of method `index` of the object / interface that owns the property"""
+    c = info.container
+    if c.type == 7:
+        return section_start(c, 'methods') + index * c.typelib.data.function_blob_size
+    return iface_section_start(c, 'methods') + index * c.typelib.data.function_blob_size
+
+
+for _fn, _field, _avail in (('g_property_info_get_setter', 'setter', 'blob_of(info).writable != 0 and blob_of(info).construct_only == 0'),
+                            ('g_property_info_get_getter', 'getter', 'blob_of(info).readable != 0')):
+    contract('c:' + _fn, cfile=PF, params={'info': 'GIRealInfo?'}, returns='GIRealInfo?', props=('C09',),
+             requires=['implies(info is not None, isinstance(blob_of(info), PropertyBlob) and info.container is not None)'] + list(CONT_WF),
+             ensures={
+                 'C09.property.%s_is_the_method_recorded_in_the_blob' % _field:
+                     "implies(info is not None and info.type == %d and %s and blob_of(info).%s != ACCESSOR_SENTINEL and "
+                     "info.container.type in (7, 8), result is not None and result.type == %d and "
+                     "result.offset == method_of_container(info, blob_of(info).%s))"
+                     % (INFO_TYPE['PROPERTY'], _avail, _field, INFO_TYPE['FUNCTION'], _field),
+                 'C09.property.no_%s_when_none_is_recorded' % _field:
+                     "implies(info is not None and info.type == %d and (not (%s) or blob_of(info).%s == ACCESSOR_SENTINEL), result is None)"
+                     % (INFO_TYPE['PROPERTY'], _avail, _field),
+             },
+             note='whether a property has a setter / getter depends on writable / construct-only (readable) and the sentinel only - '
+                  'not on the construct flag')
